@@ -79,4 +79,4 @@ ASSUMPTIONS = [
     "hir::Type re-declared with the variants inspected; generated text dropped",
     "precondition kotlin_field_ok: read from lower_type / lower_out_type's Option arms and kotlin::attr_support (option = false); Option<slice> fields are let through",
 ]
-UNVERIFIED = {"C15": ["the other Kotlin struct-field formatters (fmt_struct_field_type_native, fmt_struct_field_native_to_kt, ..)"]}
+UNVERIFIED = {"C15": ["fmt_struct_field_native_to_kt (iterator-adapter chains); fmt_struct_field_type_native / fmt_struct_field_type_kt are unit kotlin_field_types"]}
